@@ -36,6 +36,7 @@
 //!              gen_frontier(rng,&mut World), gen_heuristic(rng,&mut World,dir,target,kind),
 //!              true_dist(&World,dir,target), reachable(&World,dir,start), gen_query(rng,&World), boundary_cases() (C01/C05 families),
 //!              ksp_cases(), gen_ksp_world(rng), run_yens_watchdog(..), term_s_ksp(..), term_const(..) (Yen's, chain clause only),
+//!              long_case(n,shape,dir,orient,astar), show_long_summary, term_s_long (65k+ edge chains, summary facts),
 //!              absorption_cases() (2^60 absorption + long-haul/zero-length mutual edges), reopen_cases(),
 //!              add_reopen_gadget(rng,&mut World,&Query), reopened_and_target_popped_first(&World,&Query) (histogram statistic only)
 use crate::*;
@@ -1295,6 +1296,106 @@ pub fn gen_ksp_world(rng: &mut Rng) -> (World, usize, usize) {
     let es2: Vec<(usize, usize)> = idx.iter().map(|i| es[*i]).collect();
     let cs2: Vec<f64> = idx.iter().map(|i| cs[*i]).collect();
     (World::new(n, es2, cs2), 0, len)
+}
+
+// ------------------------------------------------------------------------------------ long routes
+#[derive(Clone, Copy, Debug, PartialEq, Eq)]
+pub enum LongShape {
+    /// chain edge i (i -> i+1) has id i
+    Plain,
+    /// chain edge i has id n-1-i
+    RevIds,
+    /// chain edge i has id 2i; edge 2i+1 is a dead-end side branch at chain vertex i (pointing into the chain for a
+    /// reverse search)
+    Branch,
+}
+impl LongShape {
+    pub fn name(&self) -> &'static str {
+        match self {
+            LongShape::Plain => "plain",
+            LongShape::RevIds => "rev_ids",
+            LongShape::Branch => "branch",
+        }
+    }
+    pub fn from_name(s: &str) -> LongShape {
+        match s {
+            "rev_ids" => LongShape::RevIds,
+            "branch" => LongShape::Branch,
+            _ => LongShape::Plain,
+        }
+    }
+    pub fn coq(&self) -> &'static str {
+        match self {
+            LongShape::Plain => "SR.LPlain",
+            LongShape::RevIds => "SR.LRevIds",
+            LongShape::Branch => "SR.LBranch",
+        }
+    }
+    pub fn edge_id(&self, n: usize, i: usize) -> usize {
+        match self {
+            LongShape::Plain => i,
+            LongShape::RevIds => n - 1 - i,
+            LongShape::Branch => 2 * i,
+        }
+    }
+}
+/// family long_route: a chain 0 -> 1 -> ... -> n of unit-cost edges (see LongShape) and the query between its two ends:
+/// Forward 0 -> n (or first chain edge -> last chain edge), Reverse n -> 0 (or last chain edge -> first).  With `astar`
+/// the heuristic table is the exact remaining distance.  The only walk between the ends is the whole chain.
+pub fn long_case(n: usize, shape: LongShape, dir: Dir, orient: Orient, astar: bool) -> (World, Query) {
+    let m = if shape == LongShape::Branch { 2 * n } else { n };
+    let mut edges = vec![(0usize, 0usize); m];
+    for i in 0..n {
+        edges[shape.edge_id(n, i)] = (i, i + 1);
+        if shape == LongShape::Branch {
+            edges[2 * i + 1] = if dir == Dir::Forward { (i, n + 1 + i) } else { (n + 1 + i, i + 1) };
+        }
+    }
+    let nv = if shape == LongShape::Branch { 2 * n + 1 } else { n + 1 };
+    let mut w = World::new(nv, edges, vec![1.0; m]);
+    if astar {
+        w.h = (0..nv).map(|v| if v <= n { if dir == Dir::Forward { (n - v) as f64 } else { v as f64 } } else { 0.0 }).collect();
+    }
+    let alg = if astar { Alg::AStar(None) } else { Alg::Dijkstra };
+    let (first, last) = (shape.edge_id(n, 0), shape.edge_id(n, n - 1));
+    let (source, target) = match (orient, dir) {
+        (Orient::Vertex, Dir::Forward) => (0, n),
+        (Orient::Vertex, Dir::Reverse) => (n, 0),
+        (Orient::Edge, Dir::Forward) => (first, last),
+        (Orient::Edge, Dir::Reverse) => (last, first),
+    };
+    (w, Query { alg, dir, orient, source, target: Some(target), query_wf: None })
+}
+/// summary facts of the (single) returned route, in the format of SR.line_S_long; other outcomes print their status
+pub fn show_long_summary(w: &World, q: &Query, o: &Outcome) -> String {
+    if !o.is_ok() {
+        return o.status.clone();
+    }
+    if o.routes.len() != 1 {
+        return format!("Ok routes={}", o.routes.len());
+    }
+    let r: Vec<usize> = o.routes[0].iter().map(|h| h.edge).collect();
+    let m = w.edges.len();
+    let near = |e: usize| if q.dir == Dir::Forward { w.edges[e].0 } else { w.edges[e].1 };
+    let far = |e: usize| if q.dir == Dir::Forward { w.edges[e].1 } else { w.edges[e].0 };
+    let unknown = r.iter().filter(|e| **e >= m).count();
+    let ok = |e: &usize| *e < m;
+    let target = q.target.unwrap();
+    let (leaves, enters) = match q.orient {
+        Orient::Vertex => (r.first().map_or(false, |e| ok(e) && near(*e) == q.source), r.last().map_or(false, |e| ok(e) && far(*e) == target)),
+        Orient::Edge => (r.first() == Some(&q.source), r.last() == Some(&target)),
+    };
+    let breaks = r.windows(2).filter(|p| ok(&p[0]) && ok(&p[1]) && far(p[0]) != near(p[1])).count();
+    let mut seen = HashSet::new();
+    let repeats = r.iter().filter(|e| !seen.insert(**e)).count();
+    let mut h: u64 = 7;
+    for e in &r {
+        h = (h.wrapping_mul(1000003).wrapping_add(*e as u64)) & 0x7fff_ffff_ffff_ffff;
+    }
+    format!("Ok len={} leaves_origin={} enters_destination={} breaks={} repeats={} unknown_edges={} digest={}", r.len(), show_bool(leaves), show_bool(enters), breaks, repeats, unknown, h)
+}
+pub fn term_s_long(id: usize, n: usize, shape: LongShape, dir: Dir) -> String {
+    format!("SR.line_S_long {}%Z {} {}%Z {}", id, shape.coq(), n, coq_bool(dir == Dir::Reverse))
 }
 
 fn term_fires(t: &Term, size: usize, iters: u64) -> bool {
